@@ -33,13 +33,13 @@ def consensus_column_witness(run, case, entry):
     list of segments before and the blank-joined string after.  Recorded way = exactly that, every other cell intact."""
     from lingpy import Alignments
     data = {int(k): [list(c) if isinstance(c, list) else c for c in row] for k, row in case["data"].items()}
-    obj = Alignments(data, ref="cogid")
+    obj = Alignments(data, ref="cogid", _interactive=False)
     obj.align(method="progressive")
     obj.get_consensus()
     path = ser.fresh("k")
     obj.output("tsv", filename=path, prettify=False, ignore="all")
     try:
-        loaded = Alignments(path + ".tsv", ref="cogid")
+        loaded = Alignments(path + ".tsv", ref="cogid", _interactive=False)
         a, b = ser.observe(obj), ser.observe(loaded)
     finally:
         os.remove(path + ".tsv")
